@@ -150,7 +150,7 @@ func c16Views(t *rapid.T, sh *history.SearchHistory, model []histEnt, steps []st
 
 func TestC16_Log(t *testing.T) {
 	rec := stat.For("C16")
-	rec.Rule("(A) rapid state machine: NewSearchHistory(path, max in {-1,0,1,2,5,100}); add(query from a pool of 5 or any valid UTF-8 string, count, context, duration) / save / load into a fresh object / clear / views (recent, top, stats, pattern). Oracle: reference log (append; immediate repeat replaces the last entry; keep the newest max', max' = max>0 ? max : default>0), entry-by-entry equality incl. after save->load, view results recomputed from the log. Non-trivial = the sequence crosses the bound or has an immediate repeat across a save/load.")
+	rec.Rule("(A) rapid state machine: NewSearchHistory(path, max in {-1,0,1,2,5,100}); add(query from a pool of 5 or any valid UTF-8 string, count, context, duration) / save / load into a fresh object / load into the same object (dropping unsaved additions) / clear / views (recent, top, stats, pattern). Oracle: reference log (append; immediate repeat replaces the last entry; keep the newest max', max' = max>0 ? max : default>0), entry-by-entry equality incl. after save->load, view results recomputed from the log. Non-trivial = the sequence crosses the bound or has an immediate repeat across a save/load.")
 	rapid.Check(t, func(t *rapid.T) {
 		path := gen.TempPath(".json")
 		defer os.Remove(path)
@@ -167,7 +167,24 @@ func TestC16_Log(t *testing.T) {
 		var steps []string
 		crossed, repeatAcross, loadedSinceAdd := false, false, false
 		saved := false
+		var savedModel []histEnt
+		reloads := 0
 		t.Repeat(map[string]func(*rapid.T){
+			"reload": func(t *rapid.T) {
+				// Load into the SAME object: unsaved additions are dropped, the log is what the file holds
+				if err := sh.Load(); err != nil {
+					t.Fatalf("Load: %v", err)
+				}
+				if saved {
+					model = append([]histEnt(nil), savedModel...)
+					reloads++
+				}
+				if sh.MaxSize != max {
+					t.Fatalf("maximum changed by Load: %d -> %d", max, sh.MaxSize)
+				}
+				loadedSinceAdd = true
+				steps = append(steps, "reload")
+			},
 			"add": func(t *rapid.T) {
 				e := histEnt{c16Query().Draw(t, "q"), rapid.IntRange(0, 50).Draw(t, "count"), rapid.SampledFrom([]string{"", "Git repository", "Go project (x)"}).Draw(t, "ctx"), int64(rapid.IntRange(0, 3000).Draw(t, "ms"))}
 				if len(model) > 0 && rapid.IntRange(0, 3).Draw(t, "repeat") == 0 {
@@ -194,6 +211,7 @@ func TestC16_Log(t *testing.T) {
 					t.Fatalf("Save: %v", err)
 				}
 				saved = true
+				savedModel = append([]histEnt(nil), model...)
 				steps = append(steps, "save")
 			},
 			"saveload": func(t *rapid.T) {
@@ -201,6 +219,7 @@ func TestC16_Log(t *testing.T) {
 					t.Fatalf("Save: %v", err)
 				}
 				saved = true
+				savedModel = append([]histEnt(nil), model...)
 				fresh := history.NewSearchHistory(path, rapid.SampledFrom([]int{100, 3, 0}).Draw(t, "new-max"))
 				if err := fresh.Load(); err != nil {
 					t.Fatalf("Load of a file written by Save: %v", err)
@@ -223,6 +242,7 @@ func TestC16_Log(t *testing.T) {
 				}
 				model = nil
 				saved = true
+				savedModel = nil
 				fresh := history.NewSearchHistory(path, 100)
 				if err := fresh.Load(); err != nil || len(fresh.Entries) != 0 {
 					t.Fatalf("after Clear the file still holds %d entries (err %v)", len(fresh.Entries), err)
@@ -232,8 +252,10 @@ func TestC16_Log(t *testing.T) {
 			"views": func(t *rapid.T) { c16Views(t, sh, model, steps) },
 			"":      func(t *rapid.T) { c16Compare(t, sh, model, max, steps) },
 		})
-		_ = saved
 		labels := []string{"log", fmt.Sprintf("max:%d", maxIn)}
+		if reloads > 0 {
+			labels = append(labels, "reload-same-object")
+		}
 		if crossed {
 			labels = append(labels, "crossed-bound")
 		}
